@@ -5,7 +5,9 @@ import (
 	"go/constant"
 	"go/token"
 	"go/types"
+	"os"
 	"strings"
+	"time"
 	"unicode/utf8"
 
 	"golang.org/x/tools/go/ssa"
@@ -83,11 +85,36 @@ func (ex *Exec) constVal(c *ssa.Const) Value {
 // ---------------------------------------------------------------------------
 // Globals and lazy, lenient package initialisation
 
+// Packages whose globals are immutable tables after initialisation: initialised once per harness run and shared
+// between paths.
+var sharedInitPkgs = map[string]bool{"go/types": true, "go/token": true, "go/constant": true, "unicode": true, "unicode/utf8": true, "strconv": true, "math": true, "math/bits": true}
+
 func (ex *Exec) globalLoc(g *ssa.Global) *Loc {
 	if l, ok := ex.globals[g]; ok {
 		return l
 	}
 	pkg := g.Pkg
+	if pkg != nil && sharedInitPkgs[pkg.Pkg.Path()] {
+		h := ex.H
+		if h.SharedGlobals == nil {
+			h.SharedGlobals = map[*ssa.Global]*Loc{}
+			h.SharedInit = map[*ssa.Package]bool{}
+		}
+		if !h.SharedInit[pkg] {
+			h.SharedInit[pkg] = true
+			saved := ex.globals
+			ex.globals = h.SharedGlobals
+			ex.initPackage(pkg)
+			ex.globals = saved
+		}
+		l, ok := h.SharedGlobals[g]
+		if !ok {
+			l = &Loc{V: zero(g.Type().(*types.Pointer).Elem())}
+			h.SharedGlobals[g] = l
+		}
+		ex.globals[g] = l
+		return l
+	}
 	if pkg != nil && ex.pkgInit[pkg] == 0 && !strings.HasPrefix(g.Name(), "init$guard") {
 		ex.initPackage(pkg)
 		if l, ok := ex.globals[g]; ok {
@@ -109,6 +136,12 @@ func (ex *Exec) initPackage(pkg *ssa.Package) {
 	ex.H.Prog.ensureBuilt(pkg)
 	ex.lenient++
 	savedSteps := ex.steps
+	if os.Getenv("SYMGO_DEBUG_INIT") != "" {
+		t0 := time.Now()
+		defer func() {
+			fmt.Fprintf(os.Stderr, "init %s: %v fail=%v stack=%v\n", pkg.Pkg.Path(), time.Since(t0), ex.sideTable["initfail:"+pkg.Pkg.Path()], ex.cur.callStack)
+		}()
+	}
 	func() {
 		defer func() {
 			if r := recover(); r != nil {
@@ -137,8 +170,8 @@ func (ex *Exec) call(fn *ssa.Function, args []Value, bind []Value) Value {
 		ex.H.Stubs[name] = true
 		return intr(ex, fn, args)
 	}
+	ex.H.Prog.ensureBuilt(fn.Pkg)
 	if fn.Blocks == nil {
-		ex.H.Prog.ensureBuilt(fn.Pkg)
 		if fn.Blocks == nil {
 			if ex.lenient > 0 {
 				return poisonResult(fn, "external function "+name)
